@@ -58,11 +58,11 @@ Proof. exact kinds_preserved. Qed.
 Print Assumptions C07_kinds_preserved.
 
 (* second clause: parse, serialize, parse is the identity (up to the normal form) on EVERY accepted
-   encoding whose externally decoded values (non-witness UTXO, witness UTXO, peg-in transaction) are
-   stable under their own decoder; every accepted packet of that kind is well formed.  The premise
-   cannot be dropped: a 36-byte witness UTXO (null value) followed by eight stray bytes is accepted and
-   its re-serialization is rejected.  It holds for every non-witness UTXO with a 0/1 flag byte and every
-   witness UTXO of at least 44 canonical bytes; for the peg-in transaction it is a statement about btcd *)
+   encoding under the premise pset_ext, which asks only that in each input (i) a witness UTXO that is
+   present has the 44 canonical bytes readTxOut asks for and (ii) the peg-in transaction (decoded by
+   btcd wire.MsgTx, an oracle without laws here) re-decodes to itself; the non-witness UTXO needs no
+   premise (C01 theorems, any flag byte).  Premise (i) cannot be dropped: a 36-byte witness UTXO (null
+   value) followed by eight stray bytes is accepted and its re-serialization is rejected. *)
 Theorem C07_parsed_wf : forall pk der xo canon bs p,
   parse_pset pk der xo canon bs = ROk p -> pset_ext pk canon p -> wf_pset pk der xo canon p = true.
 Proof. exact parsed_wf. Qed.
@@ -78,8 +78,8 @@ Theorem C07_witness_utxo_trailing_refuted :
 Proof. exact witness_utxo_trailing_refuted. Qed.
 Print Assumptions C07_witness_utxo_trailing_refuted.
 Theorem C07_nonwitness_utxo_stable : forall pk canon v t r,
-  parse_tx v = Some (t, r) -> canonical_flag t = true -> lenN v < two64 -> s_wf pk canon KTx false (ser_full t) = true.
-Proof. intros pk canon. exact (tx_stable_canonical pk pk pk canon). Qed.
+  parse_tx v = Some (t, r) -> lenN v < two64 -> s_wf pk canon KTx false (ser_full t) = true.
+Proof. intros pk canon. exact (tx_stable_any pk pk pk canon). Qed.
 Print Assumptions C07_nonwitness_utxo_stable.
 Theorem C07_witness_utxo_stable : forall pk canon v b,
   read_txout v = Some b -> (44 <= length b)%nat -> lenN v < two64 -> s_wf pk canon KTxOut false b = true.
